@@ -191,9 +191,75 @@ let verdict_len n t impl =
   | ["panic"] -> "diff impl-panic"
   | _ -> "error bad-impl-output"
 
+(* M cases: make() of a body of <len> untouched zero bytes; only sizes are observed.  Model:
+   size_outcome (C09_make_sizes, C09_lz4_sizes).  For compressed Ok cases the observed payload size
+   is the codec oracle; Snappy refusing its input is the codec's ErrSnap. *)
+let verdict_blob comp len impl =
+  let len = n_of_hex len in
+  let ms = function Ok b -> "len " ^ hex_of_n b ^ " " ^ hex_of_n b | Err b -> "err body-too-long " ^ hex_of_n b in
+  match impl with
+  | ["len"; p; f] ->
+    let p = n_of_hex p and f = n_of_hex f in
+    if f <> p then
+      Printf.sprintf "viol length-field=%s differs-from-body-size=%s (truncated, not refused)" (hex_of_n f) (hex_of_n p)
+    else begin
+      match comp with
+      | None -> if size_outcome len = Ok p then "ok" else "diff model=" ^ ms (size_outcome len)
+      | Some Lz4 ->
+        (match size_outcome len, size_outcome p with
+         | Ok _, Ok _ -> "ok" | a, _ -> "diff model=" ^ ms a)
+      | Some Snappy -> if size_outcome p = Ok p then "ok" else "diff model=" ^ ms (size_outcome p)
+    end
+  | ["err"; "body-too-long"; b] ->
+    let b = n_of_hex b in
+    (match comp with
+     | Some Snappy -> if size_outcome b = Err b then "ok" else "diff model=ok"   (* compressed payload too long *)
+     | _ -> if size_outcome len = Err b then "ok" else "diff model=" ^ ms (size_outcome len))
+  | ["err"; "snap"] -> if comp = Some Snappy then "ok" else "diff model-has-no-snappy-here"
+  | "err" :: _ -> "diff model=" ^ ms (size_outcome len)
+  | ["panic"] -> "diff impl-panic"
+  | _ -> "error bad-impl-output"
+
+let stream_of_frame (f : n list) : z =
+  match f with
+  | _ :: _ :: a :: b :: _ ->
+    let v = int_of_nn a * 256 + int_of_nn b in
+    let v = if v >= 32768 then v - 65536 else v in
+    z_of_hex (if v < 0 then "-" ^ Printf.sprintf "%x" (-v) else Printf.sprintf "%x" v)
+  | _ -> Z0
+
+(* N cases: every item is <what was asked>:<frame the node received>.  No model of the Session
+   is involved: the property predicate (independent parser on the real bytes = what was asked,
+   version 4, right opcode, length = body size, no header flags) decides alone. *)
+let verdict_e2e impl =
+  match impl with
+  | "skip-env" :: _ -> "ok not-run-environment"
+  | "e2e" :: _ :: items ->
+    let bad = ref [] in
+    List.iteri (fun k item ->
+        match String.index_opt item ':' with
+        | None -> bad := Printf.sprintf "item%d:malformed" k :: !bad
+        | Some i ->
+          let asked = String.split_on_char '/' (String.sub item 0 i) in
+          let frame = nlist_of_hex (String.sub item (i + 1) (String.length item - i - 1)) in
+          let case = match asked with k :: rest -> k :: "n" :: "0" :: rest | [] -> [] in
+          (match (try Some (request_of case []) with _ -> None) with
+           | None -> bad := Printf.sprintf "item%d:cannot-read-what-was-asked" k :: !bad
+           | Some r ->
+             if not (frame_says no_codec None false (stream_of_frame frame) r frame) then
+               bad := Printf.sprintf "item%d:%s" k (String.sub item 0 (min i 60)) :: !bad)) items;
+    if items = [] then "diff e2e-without-frames"
+    else if !bad = [] then "ok"
+    else "viol session-frame-does-not-say-what-was-asked " ^ String.concat "," (List.rev !bad)
+  | _ -> "error bad-impl-output"
+
+let rec take_l k l = if k <= 0 then [] else match l with [] -> [] | x :: r -> x :: take_l (k - 1) r
+
 let verdict case impl =
   match case with
   | ["L"; n; t] -> verdict_len n t impl
+  | ["M"; c; _; len] -> verdict_blob (comp_of c) len impl
+  | ["N"; _] -> verdict_e2e impl
   | _ ->
   let comp = comp_of (List.nth case 1) in
   let tr = (List.nth case 2 = "1") in
@@ -208,30 +274,44 @@ let verdict case impl =
     let cls = String.concat " " cls in
     (match encode_request no_codec None tr r with
      | Err e -> if err_name e = cls then "ok" else "diff model=err " ^ err_name e
-     | Ok _ -> "diff model=ok impl-refused oversize=" ^ string_of_bool (oversize r)
-               ^ " counts-match=" ^ string_of_bool (batch_counts_match r))
-  | "ok" :: frame_hex :: rest ->
+     | Ok _ ->
+       (* C09_encode_total: a request with nothing oversize and matching counts must not be refused
+          (Snappy refusing inside the codec is the codec's business) *)
+       if cls <> "snap" && not (oversize r) && batch_counts_match r && not (body_too_long r)
+       then "viol legitimate-request-refused impl=err " ^ cls
+       else "diff model=ok impl-refused oversize=" ^ string_of_bool (oversize r)
+            ^ " counts-match=" ^ string_of_bool (batch_counts_match r))
+  | "ok" :: st :: hdr0 :: frame_hex :: rest ->
+    let st = z_of_hex st in
     let frame = nlist_of_hex frame_hex in
-    (* codec oracles: what the real compressor / decompressor returned for this very case *)
+    (* codec oracles: what the real compressor / decompressor returned for this very case; the
+       decompressors answer only for the real payload (and, LZ4, the real announced size) *)
     let payload = drop 9 frame in
     let decomp = match rest with
       | [d] when d <> "FAIL" -> Some (nlist_of_hex d)
       | _ -> None in
-    let cd = { lz4_compress = (fun _ -> drop 4 payload); lz4_decompress = (fun _ _ -> decomp);
-               snap_compress = (fun _ -> Some payload); snap_decompress = (fun _ -> decomp) } in
-    let property () = frame_says cd comp tr r frame in
+    let block = drop 4 payload in
+    let dlen = match decomp with Some d -> n_of_int (List.length d) | None -> N0 in
+    let cd = { lz4_compress = (fun _ -> block);
+               lz4_decompress = (fun b n -> if b = block && n = dlen then decomp else None);
+               snap_compress = (fun _ -> Some payload);
+               snap_decompress = (fun b -> if b = payload then decomp else None) } in
+    (* the property on the implementation's own output: the frame handed to the socket (after
+       set_stream st) says the request, with stream id st *)
+    let property () = frame_says cd comp tr st r frame in
     (match encode_request cd comp tr r with
      | Err e ->
        if property () then "diff model=err " ^ err_name e ^ " impl-frame-parses-back"
        else "viol impl-emitted-frame-that-does-not-say-the-request model=err " ^ err_name e
-     | Ok f ->
-       let mh = hex_of_nlist f in
+     | Ok f0 ->
+       let mh = hex_of_nlist (set_stream st f0) in
+       let mh0 = hex_of_nlist (take_l 9 f0) in
        let body_ok = match comp with
          | None -> rest = []
          | Some _ -> (match decomp, serialize_request r with
              | Some d, Ok b -> d = b
              | _ -> false) in
-       if mh = frame_hex && body_ok then begin
+       if mh = frame_hex && mh0 = hdr0 && body_ok then begin
          (* agreement.  On a deterministic 1-in-8 sample of the smaller frames the independent
             parser is additionally run on the REAL bytes (cannot fail by C09_frame_says_complete;
             guards the extraction / this driver). *)
@@ -242,6 +322,7 @@ let verdict case impl =
        else if not (property ()) then
          "viol frame-does-not-say-the-request " ^ first_diff mh frame_hex
          ^ (if body_ok then "" else " decompressed-body-differs")
+       else if mh0 <> hdr0 then "diff header-as-made model=" ^ mh0 ^ " impl=" ^ hdr0
        else "diff " ^ first_diff mh frame_hex ^ (if body_ok then "" else " decompressed-body-differs"))
   | _ -> "error bad-impl-output"
 
